@@ -75,6 +75,50 @@ PARAM_LIKE_NAMES = ["mapping", "name", "value", "key", "args", "kwargs", "self",
                     "enum", "other", "m", "d", "kw", "result", "tmp", "type", "names", "members", "default", "serviceaction", "code", "opcode"]
 
 
+UNICODE_NAMES = ["\u00b5_SEC", "\ufb01eld", "e\u0301", "\uff21", "x\u2082", "\u00e9", "\u4e2d", "field", "\u03bc_SEC", "A\u030a", "\u00c5", "\u212b"]
+
+
+def check_unicode(n1, n2):
+    """add / look up / remove with names that are equal or distinct only up to Unicode normalisation, against a dict"""
+    from pyscsi.utils.enum import Enum
+    out = []
+    where = "names %a then %a" % (n1, n2)
+    e = Enum({})
+    model = collections.OrderedDict()
+    for step, (nm, val) in enumerate(((n1, 11), (n2, 22))):
+        try:
+            e.add(nm, val)
+            added = True
+        except KeyError:
+            added = False
+        except Exception as ex:   # noqa: BLE001
+            out.append(("unicode/add_raises", "%s: add(%a) raised %s: %s" % (where, nm, type(ex).__name__, ex)))
+            return out
+        if added != (nm not in model):
+            out.append(("unicode/add_refusal", "%s: add(%a) %s, a dict %s" % (where, nm, "accepted" if added else "refused", "has it already" if nm in model else "does not have it")))
+        if added and nm not in model:
+            model[nm] = val
+        if sorted(e.keys) != sorted(model):
+            out.append(("unicode/keys", "%s: names %a, the dict has %a" % (where, sorted(e.keys), sorted(model))))
+        for k, v in model.items():
+            try:
+                if getattr(e, k) != v:
+                    out.append(("unicode/value", "%s: .%a is %r, expected %r" % (where, k, getattr(e, k), v)))
+            except AttributeError:
+                out.append(("unicode/value", "%s: name %a cannot be read back" % (where, k)))
+            if e[v] != k:
+                out.append(("unicode/reverse", "%s: reverse lookup of %r gives %a, expected %a" % (where, v, e[v], k)))
+    for nm in list(model):
+        try:
+            e.remove(nm)
+            del model[nm]
+        except Exception as ex:   # noqa: BLE001
+            out.append(("unicode/remove", "%s: remove(%a) raised %s although the name was added" % (where, nm, type(ex).__name__)))
+        if sorted(e.keys) != sorted(model):
+            out.append(("unicode/keys_after_remove", "%s: names %a, the dict has %a" % (where, sorted(e.keys), sorted(model))))
+    return out
+
+
 def check_names(form, name, shape):
     """construction with member names that could collide with parameter names of the constructor (keyword form binds by name)"""
     from pyscsi.utils.enum import Enum
@@ -215,6 +259,8 @@ def run_case(case):
     """case = [init index, history, nvalues]"""
     if case[0] == "names":
         return check_names(case[1], case[2], case[3])
+    if case[0] == "unicode":
+        return check_unicode(case[1], case[2])
     idx, hist, nv = case
     vals = values(nv)
     enums, models, v = build(INITS[idx], [tuple(o) for o in hist], vals)
@@ -242,6 +288,16 @@ def run_partition(part, tier, seed):
                     for k, w in v:
                         acc.violation(k, w, case)
                     acc.outcome((tuple(case), tuple(k for k, _ in v)))
+        for n1 in UNICODE_NAMES:
+            for n2 in UNICODE_NAMES:
+                case = ["unicode", n1, n2]
+                acc.case(case, nontrivial=True, key=tuple(case))
+                v = check_unicode(n1, n2)
+                acc.transitions += 4
+                acc.traces += 1
+                for k, w in v:
+                    acc.violation(k, w, case)
+                acc.outcome((tuple(case), tuple(k for k, _ in v)))
         acc.stateset.add(hash("names"))
         return acc
     idx, chunk = part
